@@ -276,6 +276,17 @@ func qInt(n *hcluster.Node, sql string, params ...string) ([]int64, error) {
 	return out, nil
 }
 
+// raftTerm reads the node's current raft term (0 if unavailable).
+func raftTerm(n *hcluster.Node) int64 {
+	st, err := n.Store.Stats()
+	if err != nil {
+		return 0
+	}
+	rs, _ := st["raft"].(map[string]any)
+	t, _ := rs["term"].(int64)
+	return t
+}
+
 func tokRows(n *hcluster.Node, tok string) int {
 	v, err := qInt(n, "SELECT COUNT(*) FROM oplog WHERE tok = ?", tok)
 	if err != nil || len(v) != 1 {
@@ -435,10 +446,27 @@ func runCase(cd caseDef, dir string, seed int64, tier string) (out caseOut) {
 
 	// ---- phase 1: lost-response probes while the inter-node pools are still empty ----
 	idx := 0
-	for _, pk := range []struct{ kind, node string }{{"execute", "n2"}, {"request-rw", "n3"}} {
-		o := e.doRequest(idx, "probe", job{k: kindByName(pk.kind), node: pk.node, pr: presentations[1]}, true)
+	probe := func(kind, node string) {
+		o := e.doRequest(idx, "probe", job{k: kindByName(kind), node: node, pr: presentations[1]}, true)
 		idx++
 		e.record(o)
+	}
+	probe("execute", "n2")
+	probe("request-rw", "n3")
+	// move leadership to n2: the pools of n1 and n3 towards n2 have never been used
+	if ld := cl.WaitLeader(90 * time.Second); ld != nil && ld.Name == "n1" {
+		cl.WaitConverged(30 * time.Second)
+		if err := ld.Store.Stepdown(true, "n2"); err == nil {
+			for t0 := time.Now(); time.Since(t0) < 20*time.Second; time.Sleep(20 * time.Millisecond) {
+				if l2 := cl.Leader(); l2 != nil && l2.Name == "n2" {
+					break
+				}
+			}
+		}
+	}
+	if ld := cl.WaitLeader(90 * time.Second); ld != nil && ld.Name == "n2" {
+		probe("load-sql", "n1")
+		probe("query-strong", "n3")
 	}
 
 	// ---- phase 2: the request matrix ----
@@ -689,6 +717,7 @@ func (e *env) doRequest(idx int, phase string, jb job, cut bool) (o obs) {
 		o.Inconcl = "followers did not catch up before the request"
 		return
 	}
+	term0 := raftTerm(ld)
 	ci0, err := ld.Store.CommitIndex()
 	rows0, maxRowid0 := oplogCount(ld)
 	if err != nil || rows0 < 0 {
@@ -753,8 +782,8 @@ func (e *env) doRequest(idx int, phase string, jb job, cut bool) (o obs) {
 		return
 	}
 	e.leaders[ldAfter.Name] = true
-	if !isStep && ldAfter != ld {
-		o.Inconcl = "leadership moved during a request that does not move it (election caused by machine load)"
+	if !isStep && (ldAfter != ld || raftTerm(ld) != term0 || term0 == 0) {
+		o.Inconcl = "leadership or term changed during a request that does not move leadership (election caused by machine load)"
 		if o.Token != "" {
 			e.tokens[o.Token].Outcome = "unknown"
 		}
@@ -773,6 +802,32 @@ func (e *env) doRequest(idx int, phase string, jb job, cut bool) (o obs) {
 	// ---- lost-response probe: at most once is all the client may rely on; exactly
 	// once is what the property states for an acknowledged request ----
 	if o.Cut {
+		// The follower gave up on the first connection at once and sent the request
+		// again while the leader may still be working on the first copy: wait until the
+		// leader has finished every copy it received.
+		for t0 := time.Now(); time.Since(t0) < 15*time.Second; time.Sleep(20 * time.Millisecond) {
+			o.LeaderAA = nil
+			okCalls := 0
+			for _, c := range e.rec.since(mark) {
+				if c.Node == ld.Name && c.Surface == "cluster" {
+					o.LeaderAA = append(o.LeaderAA, c)
+					if c.OK {
+						okCalls++
+					}
+				}
+			}
+			copies := okCalls / len(k.Perms)
+			ci1, _ = ld.Store.CommitIndex()
+			o.Delta = int64(ci1) - int64(ci0)
+			if o.Token != "" {
+				o.Applied = tokRows(ld, o.Token)
+				if o.Applied >= copies && time.Since(t0) > 300*time.Millisecond {
+					break
+				}
+			} else if o.Delta >= int64(copies*k.MinDelta) && time.Since(t0) > 300*time.Millisecond {
+				break
+			}
+		}
 		if o.Token != "" {
 			info := e.tokens[o.Token]
 			info.Outcome = "unknown"
@@ -814,6 +869,14 @@ func (e *env) doRequest(idx int, phase string, jb job, cut bool) (o obs) {
 		}
 	}
 
+	if K == "stepdown-nowait" && !atLeader && r.Status == 200 && len(o.LeaderAA) == 0 {
+		bad("forward:stepdown-nowait:handled-locally", "POST /leader (no ?wait) sent to follower %s (expected %s): 200 with X-RQLITE-SERVED-BY %q, the request never reached the leader %s and leadership did not move", n.Name, o.Expect, o.ServedBy, ld.Name)
+		if ldAfter != ld {
+			bad("forward:stepdown-nowait:moved-leadership", "leader %s -> %s", ld.Name, ldAfter.Name)
+		}
+		return
+	}
+
 	// ---- status ----
 	wantStatus := map[string]int{"http-401": 401, "remote-401": 401, "redirect-301": 301, "served-local": 200, "served-forwarded": 200}[o.Expect]
 	statusOK := r.Status == wantStatus
@@ -838,9 +901,9 @@ func (e *env) doRequest(idx int, phase string, jb job, cut bool) (o obs) {
 		case r.Status == 503 || r.Status == 500 && strings.Contains(o.Body, "leader"):
 			o.Inconcl = fmt.Sprintf("status %d %q", r.Status, strings.TrimSpace(o.Body))
 			return
-		case o.Expect == "redirect-301" && K == "execute-queued" && r.Status == 200:
+		case o.Expect == "redirect-301" && K == "execute-queued" && (r.Status == 200 || r.Status == 408):
 			bad("redirect:execute-queued:ignored", "queued write with ?redirect sent to follower %s was accepted (200 %q) instead of being redirected to the leader", n.Name, strings.TrimSpace(o.Body))
-			if o.Token != "" {
+			if o.Token != "" && r.Status == 200 {
 				e.tokens[o.Token].Outcome = "ack"
 			}
 			return
